@@ -430,6 +430,12 @@ class Program:
     def need_method(self, c: ClassInfo, name, kind=None) -> FuncInfo:
         f = c.get(name, kind)
         if f is None:
+            # inherited from a base class of the package (the nearest one that defines it)
+            for k in self.mro(c)[1:]:
+                f = k.get(name, kind)
+                if f is not None:
+                    return f
+        if f is None:
             raise AnalysisError(f"anchor vanished: {c.module.name}.{c.name}.{name}" + (f" ({kind})" if kind else ""))
         return f
 
